@@ -60,6 +60,8 @@ def build(ty, v):
         return bool(v)
     if ty == "none":
         return None
+    if ty.startswith("strconst:"):
+        return ty.split(":", 1)[1]
     if ty in ("int[]", "list[int]"):
         a = [int(x) for x in v if not isinstance(x, str)]
         return np.array(a, dtype=np.int64) if ty == "int[]" else a
@@ -82,6 +84,8 @@ def build(ty, v):
         return tuple(build(t, x) for t, x in zip(split_types(ty[1:-1]), v))
     if ty.startswith("dict["):
         return {(tuple(k) if isinstance(k, list) else k): x for k, x in v} if isinstance(v, list) else dict(v)
+    if ty == "opaque" or ty.startswith("func"):
+        raise ValueError("no concrete value for %s" % ty)
     raise ValueError("cannot build %s" % ty)
 
 
@@ -101,6 +105,8 @@ def gen(ty, rng, hint=None):
         return rng.random() < 0.5
     if ty == "none":
         return None
+    if ty.startswith("strconst:"):
+        return ty.split(":", 1)[1]
     if ty in ("int[]", "list[int]"):
         n = rng.choice([0, 0, 1, 1, 2, 2, 3, 4, 5])
         if hint == "sorted_unique" or (hint is None and rng.random() < 0.6):
@@ -153,6 +159,8 @@ def jsonable(v):
         return [[jsonable(k), jsonable(x)] for k, x in v.items()]
     if isinstance(v, (list, tuple)):
         return [jsonable(x) for x in v]
+    if callable(v):
+        return "<callable %s>" % getattr(v, "__name__", "f")
     return v
 
 
@@ -203,11 +211,12 @@ def search(qn, model, n_random=4000, seed=0):
         f = run_case(qn, c, macros, args)
         if isinstance(f, dict):
             return dict(function=qn, origin=origin, args={k: jsonable(v) for k, v in args.items()}, failure=f, tried=tried)
+    gen_all = c.get("gen_all")
     for i in range(n_random):
         var = rng.choice(variants)
         pt = dict(ptypes, **var) if var else ptypes
         try:
-            args = {k: gen(t, rng, hints.get(k)) for k, t in pt.items()}
+            args = gen_all(rng) if gen_all else {k: gen(t, rng, hints.get(k)) for k, t in pt.items()}
         except ValueError:
             return None
         tried += 1
@@ -235,7 +244,8 @@ def main(argv):
         contracts, macros = CT.load_all()
         c = contracts[case["function"]]
         pt = case.get("types") or c["params"]
-        args = {k: build(pt[k], v) for k, v in case["args"].items()}
+        fixed = c.get("replay_fixed", {})
+        args = {k: (fixed[k] if k in fixed else build(pt[k], v)) for k, v in case["args"].items()}
         f = run_case(case["function"], dict(c, params=pt), macros, args)
         print("replay of %s on %s:" % (case["function"], json.dumps(case["args"])))
         print("  outcome:", json.dumps(f))
